@@ -105,6 +105,7 @@ static void run() {
         { auto v = atoms(200, 1); v.push_back(Tree::list(atoms(60, 2))); v.push_back(Tree::symbol("tail")); big.push_back(Tree::list(v)); }        // a sub-list late in a long parent
         { auto v = atoms(3, 5); auto w = atoms(300, 6); w.insert(w.begin() + 150, Tree::list(atoms(300, 7))); v.push_back(Tree::list(w)); big.push_back(Tree::list(v)); }
         for (size_t depth : {(size_t)50, (size_t)255, (size_t)256, (size_t)257, (size_t)1000}) { Tree t = Tree::list({Tree::symbol("x")}); for (size_t i = 0; i < depth; i++) t = Tree::list({Tree::integer(i), t, Tree::list()}); big.push_back(t); }
+        for (size_t len : {(size_t)254, (size_t)255, (size_t)256, (size_t)257, (size_t)1000, (size_t)65536}) { std::string sym(len, 'q'); sym[len / 2] = '-'; big.push_back(Tree::list({Tree::symbol(sym), Tree::integer(9999999999999999999ull), Tree::symbol(sym + "x")})); big.push_back(Tree::symbol(sym)); }
         for (auto &t : big) {
             if (k++ % a.nshards != a.shard) continue;
             for (int ws = 0; ws < 3; ws++) { std::string out; unsigned salt = k; render(t, ws, 4, out, salt); run_input(out, true); vp::cls("long-list-or-deep-nesting"); }
